@@ -121,6 +121,37 @@ class NeutronData(object):
         self._cell_cache = {}
         self._has = {}
 
+    # ---- a private table whose masses / densities the caller customised before attaching the neutron data
+    def customised(self, el_mass=None, iso_mass=None, density=None, divide_all_by=None):
+        """A copy of the data with other masses (symbol -> value, (symbol, A) -> value) and element densities
+        (symbol -> value); divide_all_by = s: every element mass, isotope mass and element density divided by s
+        (the loop of the customisation guide).  The scattering lengths, cross sections and abundances are those of
+        the tables; the receiver is not changed."""
+        import copy
+        d = copy.copy(self)
+        d.el_mass = dict(self.el_mass)
+        d.iso_mass = dict(self.iso_mass)
+        d.dens = dict(self.dens)
+        d._cell_cache = {}
+        d._has = {}
+        if divide_all_by is not None:
+            s = divide_all_by
+            for z in d.el_mass:
+                d.el_mass[z] = d.el_mass[z] / s
+            for k, (sym, m, u) in list(d.iso_mass.items()):
+                d.iso_mass[k] = (sym, m / s, u)
+            for sym in d.dens:
+                if d.dens[sym] is not None:
+                    d.dens[sym] = d.dens[sym] / s
+        for sym, m in (el_mass or {}).items():
+            d.el_mass[self.z_of_sym[sym]] = m
+        for (sym, a), m in (iso_mass or {}).items():
+            k = (self.z_of_sym[sym], a)
+            d.iso_mass[k] = (d.iso_mass[k][0], m, d.iso_mass[k][2])
+        for sym, rho in (density or {}).items():
+            d.dens[sym] = rho
+        return d
+
     # ---- which record describes an atom
     def record(self, sym, a):
         """Row of the neutron table for element (a == 0) or isotope; None = no row; 'unjudged' for an
